@@ -87,4 +87,13 @@ theorem entryTail_total (w : World) (c : Cfg) (p rel id s : Text) (cmp : Cmp)
   rcases entryTail_one_outcome w c p rel id s cmp hs with h | h | h | h <;>
     (simp only [h.2, Events.total]; omega)
 
+/-- structural facts read from the source on every run: in the five match* functions every
+`handleError(...)` is directly followed by `return` (a failing path cannot go on to report a second
+outcome), and every `t.Log(addedMsg / updatedMsg)` is directly followed by the registration of
+exactly that event.  The model's step functions have this shape by construction; these two
+obligations tie that shape to the code. -/
+theorem handleError_always_returns : Generated.handleErrorReturns = true := by decide
+
+theorem log_followed_by_register : Generated.logFollowedByRegister = true := by decide
+
 end GoSnaps.C20
